@@ -269,7 +269,7 @@ func (e *Env) tr(x CExpr) Val {
 			c.bound[name] = true
 			binders = append(binders, "("+name+" "+s+")")
 			if t != mathInt {
-				guards = append(guards, e.w.typeFacts(name, t)...)
+				guards = append(guards, e.w.boundFacts(name, t)...)
 			}
 		}
 		saved := c.side
@@ -493,6 +493,15 @@ func (e *Env) ident(name string) Val {
 				}
 			}
 		}
+	}
+	if a, t, ok := e.w.ghostVar(name); ok {
+		if _, isMap := t.Underlying().(*types.Map); isMap {
+			return Val{S: a, Sort: "Addr", T: t}
+		}
+		if e.st == nil {
+			cfail("ghost variable %s read in a pure context", name)
+		}
+		return e.mkHeap(e.w.heapLoad(e.st, a, t), t)
 	}
 	cfail("unknown identifier %q", name)
 	return Val{}
